@@ -59,6 +59,20 @@ structure Cfg where
   wDirTo : Bool
   /-- the bank handler sends `GetAllBalances(from)` from the source to the target -/
   bankAll : Bool
+  /-- `DepositPeriodCallback` refuses a proposer that is the source / the target, a depositor that is the source / the target -/
+  gProposerFrom : Bool
+  gProposerTo : Bool
+  gDepositFrom : Bool
+  gDepositTo : Bool
+  /-- `VotePeriodCallback` first runs the deposit callback, and refuses a voter that is the source / the target -/
+  gVoteDeposit : Bool
+  gVoteFrom : Bool
+  gVoteTo : Bool
+  /-- the entry loops of `Execute` reach the queue rewrite for every entry (no branch statement, the rewrite flag is
+  declared per entry) -/
+  qEveryEntry : Bool
+  /-- a queue element is renamed whenever its delegator is the source, whatever record it belongs to -/
+  qByDelegator : Bool
   deriving Repr, DecidableEq
 
 /-- the far-future bound that makes `NewPrefixUntilPairRange` cover every queue entry -/
@@ -90,7 +104,18 @@ def cfg : Cfg :=
     wRecTo := Gen.C14.recordWrites.contains ("GetMigratedRecordKey", "to")
     wDirFrom := Gen.C14.recordWrites.contains ("GetMigratedDirectionFrom", "from")
     wDirTo := Gen.C14.recordWrites.contains ("GetMigratedDirectionTo", "to")
-    bankAll := Gen.C14.bankAmountCall == "GetAllBalances(from)" && Gen.C14.bankSendArgs == "from,to.Bytes(),amount" }
+    bankAll := Gen.C14.bankAmountCall == "GetAllBalances(from)" && Gen.C14.bankSendArgs == "from,to.Bytes(),amount"
+    gProposerFrom := Gen.C14.govDepositChecks.contains "proposer-from"
+    gProposerTo := Gen.C14.govDepositChecks.contains "proposer-to"
+    gDepositFrom := Gen.C14.govDepositChecks.contains "deposit-from"
+    gDepositTo := Gen.C14.govDepositChecks.contains "deposit-to"
+    gVoteDeposit := Gen.C14.govVoteChecks.contains "deposit-callback"
+    gVoteFrom := Gen.C14.govVoteChecks.contains "vote-from"
+    gVoteTo := Gen.C14.govVoteChecks.contains "vote-to"
+    qEveryEntry := Gen.C14.queueLoops.map (fun l => (l.1, l.2.1, l.2.2.2)) ==
+                     [("ubd.Entries", "", "inside"), ("red.Entries", "", "inside")]
+    qByDelegator := Gen.C14.queueLoops.map (fun l => l.2.2.1) ==
+                      ["UBDQueue[i].DelegatorAddress == from.String()", "redQueue[i].DelegatorAddress == from.String()"] }
 
 /-! ## state -/
 def bondedPool : Addr := 901
@@ -388,23 +413,24 @@ inductive MErr where
   | same | sig | migrated | account | validator | toStaking | gov | exec
   deriving Repr, DecidableEq
 
-/-- `DepositPeriodCallback` for one proposal -/
-def depositCb (s : State) (frm to : Addr) (id : Nat) : Bool :=
+/-- `DepositPeriodCallback` for one proposal: the refusals the code contains -/
+def depositCb (c : Cfg) (s : State) (frm to : Addr) (id : Nat) : Bool :=
   match get s.props id with
   | none => true   -- `Proposals.Get` error
   | some pr =>
-    pr.proposer == frm || pr.proposer == to ||
-    (get s.deposits (id, frm)).isSome || (get s.deposits (id, to)).isSome
+    (c.gProposerFrom && pr.proposer == frm) || (c.gProposerTo && pr.proposer == to) ||
+    (c.gDepositFrom && (get s.deposits (id, frm)).isSome) || (c.gDepositTo && (get s.deposits (id, to)).isSome)
 
 /-- `VotePeriodCallback` -/
-def voteCb (s : State) (frm to : Addr) (id : Nat) : Bool :=
-  depositCb s frm to id || s.votes.contains (id, frm) || s.votes.contains (id, to)
+def voteCb (c : Cfg) (s : State) (frm to : Addr) (id : Nat) : Bool :=
+  (c.gVoteDeposit && depositCb c s frm to id) || (get s.props id).isNone ||
+  (c.gVoteFrom && s.votes.contains (id, frm)) || (c.gVoteTo && s.votes.contains (id, to))
 
 /-- `GovMigrate.Validate`: walk both queues up to the bound; `true` = refuse -/
 def govRefuses (c : Cfg) (s : State) (frm to : Addr) : Bool :=
   let inBound (t : Time) : Bool := c.govScanAll || t ≤ s.now
-  (s.inactiveQ.filter (fun p => inBound p.1)).any (fun p => depositCb s frm to p.2) ||
-  (s.activeQ.filter (fun p => inBound p.1)).any (fun p => voteCb s frm to p.2)
+  (s.inactiveQ.filter (fun p => inBound p.1)).any (fun p => depositCb c s frm to p.2) ||
+  (s.activeQ.filter (fun p => inBound p.1)).any (fun p => voteCb c s frm to p.2)
 
 /-- `DistrStakingMigrate.Validate` -/
 def stakingValidate (c : Cfg) (s : State) (frm to : Addr) : Option MErr :=
@@ -444,14 +470,22 @@ def moveDelegation (c : Cfg) (frm to : Addr) (s : State) (p : (Addr × Val) × N
            dels := put (del s.dels (frm, v)) (to, v) p.2,
            delIdx := if c.rewriteDelIdx then ins (rem s.delIdx (v, frm)) (v, to) else s.delIdx }
 
-/-- one unbonding delegation of `from` (`unbondingDelegationIterator` loop body) -/
+/-- the entries whose queue slice the entry loop reaches -/
+def qEntries (c : Cfg) (es : List (Time × Nat × Nat)) : List (Time × Nat × Nat) := if c.qEveryEntry then es else es.take 1
+
+/-- one unbonding delegation of `from` (`unbondingDelegationIterator` loop body): the record and its by-validator index
+entry are re-keyed, the unbonding-id index of every entry is re-pointed, and for every entry (`qEntries`) the queue slice
+of its completion time is read and, if it names the source, written back renamed -/
 def moveUbd (c : Cfg) (frm to : Addr) (s : State) (p : (Addr × Val) × List (Time × Nat × Nat)) : State :=
   let v := p.1.2
   let s1 := { s with ubds := put (del s.ubds (frm, v)) (to, v) p.2, ubdIdx := ins (rem s.ubdIdx (v, frm)) (v, to) }
-  p.2.foldl (fun s e =>
+  let s2 := p.2.foldl (fun s e =>
+      { s with unbId := if c.rewriteUnbId then put s.unbId e.2.2 (to, v, none) else s.unbId }) s1
+  (qEntries c p.2).foldl (fun s e =>
       let slice := (get s.ubdQ e.1).getD []
-      let q := if slice.any (fun x => x.1 == frm) then setAt s.ubdQ e.1 (slice.map (renPair frm to)) else s.ubdQ
-      { s with ubdQ := q, unbId := if c.rewriteUnbId then put s.unbId e.2.2 (to, v, none) else s.unbId }) s1
+      let ren : Addr × Val → Addr × Val :=
+        if c.qByDelegator then renPair frm to else fun x => if x == (frm, v) then (to, v) else x
+      { s with ubdQ := if slice.any (fun x => x.1 == frm) then setAt s.ubdQ e.1 (slice.map ren) else s.ubdQ }) s2
 
 /-- one redelegation of `from` (`redelegateIterator` loop body) -/
 def moveRed (c : Cfg) (frm to : Addr) (s : State) (p : (Addr × Val × Val) × List (Time × Nat × Nat)) : State :=
@@ -460,10 +494,13 @@ def moveRed (c : Cfg) (frm to : Addr) (s : State) (p : (Addr × Val × Val) × L
   let s1 := { s with reds := put (del s.reds (frm, src, dst)) (to, src, dst) p.2,
                      redSrcIdx := ins (rem s.redSrcIdx (src, frm, dst)) (src, to, dst),
                      redDstIdx := ins (rem s.redDstIdx (dst, frm, src)) (dst, to, src) }
-  p.2.foldl (fun s e =>
+  let s2 := p.2.foldl (fun s e =>
+      { s with unbId := if c.rewriteUnbId then put s.unbId e.2.2 (to, src, some dst) else s.unbId }) s1
+  (qEntries c p.2).foldl (fun s e =>
       let slice := (get s.redQ e.1).getD []
-      let q := if slice.any (fun x => x.1 == frm) then setAt s.redQ e.1 (slice.map (renTriple frm to)) else s.redQ
-      { s with redQ := q, unbId := if c.rewriteUnbId then put s.unbId e.2.2 (to, src, some dst) else s.unbId }) s1
+      let ren : Addr × Val × Val → Addr × Val × Val :=
+        if c.qByDelegator then renTriple frm to else fun x => if x == (frm, src, dst) then (to, src, dst) else x
+      { s with redQ := if slice.any (fun x => x.1 == frm) then setAt s.redQ e.1 (slice.map ren) else s.redQ }) s2
 
 /-- `DistrStakingMigrate.Execute` -/
 def stakingExecute (c : Cfg) (s : State) (frm to : Addr) : State :=
